@@ -333,11 +333,13 @@ def compressible (o : WObj) : Bool :=
   | .plain _ => true
   | _ => false
 
-def modelS (cfg : Cfg) (objs : List WObj) : List String :=
+def modelS (_cfg : Cfg) (objs : List WObj) : List String :=
   -- (until /repo 67304722 a raw cross-reference stream still declared /FlateDecode, C03-F1, and
   --  the strict scan stopped at the cross-reference stream; repaired, no special case is left)
-    let reachable := if cfg.objstm && !cfg.xref then objs.filter (fun o => !compressible o) else objs
-    "S:ok,root=1,info=3" :: (sortById reachable).map showWObj
+  -- (until /repo 4d9cdfbe `use_object_streams` with a classic table buffered every non-stream
+  --  object without giving it an entry, C03-F2: only streams were reachable; repaired — object
+  --  streams are now used only together with a cross-reference stream)
+    "S:ok,root=1,info=3" :: (sortById objs).map showWObj
 
 /-- the library's object parser model on the bytes the model writer produced -/
 def libParse (v : Obj) : Option Obj :=
@@ -345,9 +347,7 @@ def libParse (v : Obj) : Option Obj :=
   | .ok (o, []) => some o
   | _ => none
 
-def modelL (cfg : Cfg) (cb : List (Bytes × Bytes)) (objs : List WObj) : List String :=
-  if cfg.objstm && !cfg.xref then ["L:unmodelled:objects-without-xref-entries"]
-  else
+def modelL (_cfg : Cfg) (cb : List (Bytes × Bytes)) (objs : List WObj) : List String :=
     match graphOf libParse (unzOf cb) objs with
     | none => ["L:err:model-parse"]
     | some g =>
